@@ -101,7 +101,12 @@ func (w *World) verifyFunc(fn *ssa.Function, c *FuncContract) (x *Exec, err erro
 			if nret > 1 {
 				name += fmt.Sprintf("@ret%d", nret)
 			}
-			x.obligation(r.st, "ensures", name, t, clauseProps(fr, cl), cl.Text, fmt.Sprintf("%s:%d", cl.File, cl.Line))
+			o := x.obligation(r.st, "ensures", name, t, clauseProps(fr, cl), cl.Text, fmt.Sprintf("%s:%d", cl.File, cl.Line))
+			var ps []*Val
+			for _, p := range fn.Params {
+				ps = append(ps, fr.env[p])
+			}
+			o.Replay = &replaySpec{fn: fn, params: ps, results: r.vals, entry: fr.entry, final: r.st, x: x}
 		}
 	}
 	if len(x.unsup) > 0 {
